@@ -77,6 +77,11 @@ type script struct {
 	i, off int
 	sticky error
 	reads  int
+	// delivered: high-water mark of the stream bytes handed to the reader. A timeout does not end
+	// the stream for the environment: a reader that comes back after one is served the rest (the
+	// sender was only silent), and is then judged on everything it was given.
+	delivered int
+	afterEnd  int
 }
 
 func (s *script) Read(p []byte) (int, error) {
@@ -85,6 +90,9 @@ func (s *script) Read(p []byte) (int, error) {
 		return 0, nil
 	}
 	if s.sticky != nil {
+		if s.afterEnd++; s.afterEnd > 1000 {
+			panic("the handler keeps reading a connection that has ended (1000 reads after the end of the stream)")
+		}
 		return 0, s.sticky
 	}
 	if s.i >= len(s.steps) {
@@ -94,11 +102,16 @@ func (s *script) Read(p []byte) (int, error) {
 	st := s.steps[s.i]
 	n := copy(p, s.stream[st.lo+s.off:st.hi])
 	s.off += n
+	if st.lo+s.off > s.delivered {
+		s.delivered = st.lo + s.off
+	}
 	if st.lo+s.off == st.hi {
 		s.i++
 		s.off = 0
 		if st.err != nil {
-			s.sticky = st.err
+			if st.err == io.EOF {
+				s.sticky = st.err
+			}
 			return n, st.err
 		}
 	}
@@ -126,8 +139,14 @@ var modeNames = []string{"base", "eof-with-last", "zero-reads", "timeout-with", 
 func (s *script) build(stream []byte, cuts []int, mode, k int) (offered int) {
 	s.stream = stream
 	s.steps = s.steps[:0]
-	s.i, s.off, s.sticky, s.reads = 0, 0, nil, 0
+	s.i, s.off, s.sticky, s.reads, s.delivered, s.afterEnd = 0, 0, nil, 0, 0, 0
 	lo, nch := 0, 0
+	defer func() {
+		if (mode == mTimeoutWith || mode == mTimeoutAfter) && offered < len(stream) {
+			// only a reader that reads on after the timeout gets here
+			s.steps = append(s.steps, step{offered, len(stream), nil})
+		}
+	}()
 	emit := func(hi int) bool {
 		if mode == mZeroReads {
 			s.steps = append(s.steps, step{lo, lo, nil})
@@ -773,6 +792,14 @@ func (w *worker) readerCase(h string, stream []byte, spec streamSpec, cuts []int
 		wants[offered] = want
 	}
 	herr, pan := w.runReader(h)
+	if w.sc.delivered > offered {
+		// the handler went on reading after the timeout: what it has to account for is what it was given
+		offered = w.sc.delivered
+		if want = wants[offered]; want == nil {
+			want = mkWant(stream[:offered], tcpLimit)
+			wants[offered] = want
+		}
+	}
 	w.setOffered(stream[:offered])
 	w.judge(h, want, herr, pan, tcpLimit, func() caseSpec {
 		return caseSpec{Handler: h, Streams: []streamSpec{spec}, Cuts: append([]int(nil), cuts...), Mode: modeNames[mode], K: k}
